@@ -34,7 +34,9 @@ def uw(cfg, nmain=6):
           "stub_dev_write.0:%d" % (B + 1), "stub_dev_write.1:%d" % (nfs + 1),
           "stub_dev_read.0:%d" % (B + 1), "stub_dev_read.1:%d" % (nj + 1), "getblk.0:%d" % (B + 1),
           "sync_blockdev.0:%d" % (nfs * B + 1),
-          "do_one_pass.19:%d" % (walk + 1), "do_one_pass.14:%d" % (maxt + 1), "count_tags.0:%d" % (maxt + 1),
+          "do_one_pass.19:%d" % (walk + 1), "do_one_pass.14:%d" % (maxt + 1),
+          # -DDEBUGFS: J_ASSERT is assert(), not a do-while(0): the two real loops are numbered one lower
+          "do_one_pass.18:%d" % (walk + 1), "do_one_pass.13:%d" % (maxt + 1), "count_tags.0:%d" % (maxt + 1),
           "calc_chksums.1:%d" % (maxt + 1), "scan_revoke_records.0:%d" % (maxrev + 1)]
     return l
 
@@ -109,16 +111,16 @@ HARNESSES = [
                "s_start 1 (thorough: 4 = data blocks wrap, and symbolic)"),
     dict(name="recover", src="recover.c",
          funcs=["jbd2_journal_recover", "do_one_pass", "scan_revoke_records", "count_tags", "read_tag_block", "jread"],
-         configs=cfgs([dict(Q, FEAT_64BIT=0, START=1, B=40, NFS=3, REF_MAXWALK=3, REF_MAXREV=1, REF_MAXRB=1, _unwindset=rm_uw(1)),
-                       dict(Q, FEAT_64BIT=0, START=1, B=40, NFS=3, REF_MAXWALK=3, REF_MAXREV=1, REF_MAXRB=1, DEBUGFS=None, _unwindset=rm_uw(1)),
+         configs=cfgs([dict(Q, FEAT_64BIT=0, START=1, B=32, NFS=3, REF_MAXWALK=3, REF_MAXREV=1, REF_MAXRB=1, _unwindset=rm_uw(1)),
+                       dict(Q, FEAT_64BIT=0, START=1, B=32, NFS=3, REF_MAXWALK=3, REF_MAXREV=1, REF_MAXRB=1, DEBUGFS=None, _unwindset=rm_uw(1)),
                        dict(Q, FEAT_64BIT=0, START=3, B=40, NFS=3, REF_MAXWALK=4, REF_MAXREV=2, REF_MAXRB=1, _unwindset=rm_uw(2), **T),
-                       dict(Q, FEAT_64BIT=1, START=1, B=40, NFS=3, REF_MAXWALK=3, REF_MAXREV=1, REF_MAXRB=1, _unwindset=rm_uw(1), **T)]),
+                       dict(Q, FEAT_64BIT=1, START=1, B=32, NFS=3, REF_MAXWALK=3, REF_MAXREV=1, REF_MAXRB=1, _unwindset=rm_uw(1), **T)]),
          unwind=3, cbmc_flags=FS, backends=["kissat", "default"], cap_quick=300,
          bound="journal of 6 blocks of 40 bytes, filesystem of 3 blocks, every byte symbolic; log walk <= 3 header blocks; <= 1 revoke "
                "block with 1 record; s_start 1; e2fsck and DEBUGFS flavours"),
     dict(name="order", src="order.c",
          funcs=["jbd2_journal_recover", "do_one_pass", "scan_revoke_records", "count_tags", "read_tag_block", "jread"],
-         configs=cfgs([dict(Q, FEAT_64BIT=0, START=1, B=40, NFS=3, REF_MAXWALK=3, REF_MAXREV=1, REF_MAXRB=1, _unwindset=rm_uw(1))]),
+         configs=cfgs([dict(Q, FEAT_64BIT=0, START=1, B=32, NFS=3, REF_MAXWALK=3, REF_MAXREV=1, REF_MAXRB=1, _unwindset=rm_uw(1))]),
          unwind=3, cbmc_flags=FS, backends=["kissat", "default"], cap_quick=300,
          bound="as recover; filesystem device split into volatile and durable stores"),
 ]
